@@ -1,9 +1,116 @@
+import SwayVerif.Model.ConstFold
+import SwayVerif.Generated.FoldTable
 import SwayVerif.Driver.Util
-/-! Driver for C06 (stub — replace `answer`; keep `run`). -/
+/-!
+Driver for C06.
+Case: `fold <irfold|consteval> <op> <ty> <a> <b> <route>` | `simp <op> u64 <l|r> <c> <x>` (hex payloads)
+implementation result: `<ct>/<rt> ct=<hex|-> rt=<hex|-> [raw=<hex>]`,
+  ct ∈ fold | arg | decline | abort | cterr, rt ∈ ok | revert | panic | rterr…
+Answer: `<model ct>/<model rt> agree= prop= op= ty= ct= rt= src=`
+`agree`: both model evaluators (over the GENERATED tables) equal both implementation results (and, for the
+narrow-width `not`, the bare `NOT` result `raw`). `prop`: `propHolds` on the implementation's results.
+-/
 namespace SwayVerif.Driver.C06
-open SwayVerif.Driver
+open SwayVerif.Driver SwayVerif.RustInt SwayVerif.ConstFold SwayVerif.Generated.FoldTable
 
-def answer (_line : String) : String := "unimplemented agree=0 prop=0"
+def parseOp : String → Option Op
+  | "add" => some .add | "sub" => some .sub | "mul" => some .mul | "div" => some .div | "mod" => some .mod
+  | "and" => some .and | "or" => some .or | "xor" => some .xor | "lsh" => some .lsh | "rsh" => some .rsh
+  | "not" => some .not | "eq" => some .eq | "lt" => some .lt | "gt" => some .gt
+  | _ => none
+
+def parseTy : String → Option Ty
+  | "u8" => some .u8 | "u16" => some .u16 | "u32" => some .u32 | "u64" => some .u64
+  | "u256" => some .u256 | "b256" => some .b256 | "bool" => some .bool
+  | _ => none
+
+def parseSrc : String → Option Src
+  | "irfold" => some .irFold | "consteval" => some .constEval
+  | _ => none
+
+def kvOf (toks : List String) (key : String) : Option String :=
+  toks.findSome? fun t => if t.startsWith (key ++ "=") then some ((t.drop (key.length + 1)).toString) else none
+
+def showCt : Ct → String
+  | .fold v => s!"fold:{hexOfNat v}"
+  | .decline => "decline"
+  | .crash => "crash"
+
+def showRt : Outcome → String
+  | .ok v => s!"ok:{hexOfNat v}"
+  | .revert => "revert"
+  | .panic => "panic"
+
+/-- Implementation's compile-time result. `arg` (the rewrite substituted the non-constant operand, whose
+run-time value is `ct=`) counts as a substituted value. -/
+def implCt (cls : String) (toks : List String) : Option Ct :=
+  match cls with
+  | "fold" | "arg" => (kvOf toks "ct").bind parseHex? |>.map Ct.fold
+  | "decline" => some .decline
+  | "abort" => some .crash
+  | _ => none
+
+def implRt (cls : String) (toks : List String) : Option Outcome :=
+  match cls with
+  | "ok" => (kvOf toks "rt").bind parseHex? |>.map Outcome.ok
+  | "revert" => some .revert
+  | "panic" => some .panic
+  | _ => none
+
+def classes (i : List String) : String × String :=
+  match i.head? with
+  | some t => match t.splitOn "/" with
+    | [a, b] => (a, b)
+    | _ => ("?", "?")
+  | none => ("?", "?")
+
+def answer (line : String) : String :=
+  let (c, i) := splitCase line
+  let (ctCls, rtCls) := classes i
+  match c with
+  | ["fold", src, sop, sty, a, b, route] =>
+    match parseSrc src, parseOp sop, parseTy sty, parseHex? a, parseHex? b with
+    | some src, some op, some ty, some a, some b =>
+      let mct0 := ctFold foldTable src op ty (rhsTy op ty) a b
+      -- Sway stream: an ill-typed intrinsic call does not compile (`decline`); `!x` on u8/u16/u32 is compiled
+      -- as `__and(__not(x), max)` (ops.sw), and const_eval interprets exactly that
+      let mct := if src == .constEval && !wellTyped op ty then Ct.decline
+        else if src == .constEval && op == .not && !ty.isWide then
+          (match mct0 with
+           | .fold v => ctFold foldTable src .and ty ty v ty.maxVal
+           | o => o)
+        else mct0
+      let mrt := if op == .not then rtNotStd lowering ty a else rtEval lowering op ty a b
+      match implCt ctCls i, implRt rtCls i with
+      | some ict, some irt =>
+        -- the bare instruction for the narrow `not`
+        let rawOk := match kvOf i "raw" with
+          | some r => decide (some (rtEval lowering .not ty a 0) = (parseHex? r).map Outcome.ok)
+          | none => true
+        let rawDiff := match kvOf i "raw", ict with
+          | some r, .fold v => if parseHex? r == some v then "0" else "1"
+          | _, _ => "-"
+        let agree := decide (mct = ict) && decide (mrt = irt) && rawOk
+        s!"{showCt mct}/{showRt mrt} agree={b01 agree} prop={b01 (propHolds ict irt)} op={sop} ty={sty} ct={ctCls} rt={rtCls} src={route} notraw_differs={rawDiff}"
+      | _, _ => s!"{showCt mct}/{showRt mrt} agree=0 prop=0 op={sop} ty={sty} ct={ctCls} rt={rtCls} src={route} bad=impl"
+    | _, _, _, _, _ => "bad-case agree=0 prop=0"
+  | ["simp", sop, "u64", side, cst, x] =>
+    match parseOp sop, parseHex? cst, parseHex? x with
+    | some op, some cst, some x =>
+      let onLeft := side == "l"
+      let entry := simpTable.find? fun s => s.op == op && s.constOnLeft == onLeft && s.c == cst
+      let mrt := if onLeft then rtEval lowering op .u64 cst x else rtEval lowering op .u64 x cst
+      -- model: class `arg` when the rewrite keeps the non-constant operand, `fold` when it keeps the constant
+      let (mcls, mct) := match entry with
+        | some s => (if s.constOnLeft == s.resultIsLeft then "fold" else "arg", Ct.fold (simpCt s x))
+        | none => ("decline", Ct.decline)
+      match implCt ctCls i, implRt rtCls i with
+      | some ict, some irt =>
+        let agree := decide (mct = ict) && mcls == ctCls && decide (mrt = irt)
+        s!"{mcls}:{showCt mct}/{showRt mrt} agree={b01 agree} prop={b01 (propHolds ict irt)} op=simp-{sop} ty=u64 ct={ctCls} rt={rtCls} src=api"
+      | _, _ => s!"{mcls}:{showCt mct}/{showRt mrt} agree=0 prop=0 op=simp-{sop} ty=u64 ct={ctCls} rt={rtCls} bad=impl"
+    | _, _, _ => "bad-case agree=0 prop=0"
+  | _ => "bad-case agree=0 prop=0"
 
 def run : IO Unit := do
   lineLoop (← IO.getStdin) (← IO.getStdout) answer
